@@ -67,6 +67,9 @@ VERIF_TARGET(c22_mempool_history, nullptr, 140, 2200,
              "time-locked or coinbase-spending transaction; distinct = op kinds, generated kinds, accept/reject reasons, reorg depths")
 {
     MempoolSimOpts o = PickHistoryConfig(s, st);
+    // CTxMemPool::check() after every ATMP/block is only an additional monitor and costs ~6x the rest of a case under ASan: on in a quarter of the cases
+    o.with_mempool_checks = s.chance(64);
+    if (o.with_mempool_checks) st.cls("with-CTxMemPool-check");
     MempoolSim ms(o);
     Oracle oracle{ms, st};
     HistoryHooks hooks;
